@@ -272,6 +272,13 @@ def cls_src(t, defs):
     base = {'py': f'({q("JSONPyWizard")})', 'yaml': f'({q("YAMLWizard")})', 'toml': f'({q("TOMLWizard")})',
             'file': f'({q("JSONWizard")}, {q("JSONFileWizard")})', True: f'({q("JSONWizard")})', False: ''}[wizard]
     pyname = info.get('pyname') or info['name']
+    # optional `inherits`: {'base': <class model>, 'n': k} — the class derives from that class (instead of the wizard base); `fields` / `ftys`
+    # list ALL its fields (what an instance has, what the driver's flat class model sees), the first k of them are the inherited ones
+    inh = info.get('inherits')
+    own_fields = info['fields']
+    if inh:
+        base = f'({ty_src(inh["base"], defs)})'
+        own_fields = info['fields'][inh['n']:]
     lines = ['@' + q('dataclass'), f'class {pyname}{base}:']
     meta = info.get('meta')
     # optional `meta_steps`: the class's Meta arrives in several bindings, in this order — [{'via': 'inner' | 'load' | 'dump' | 'base',
@@ -291,7 +298,7 @@ def cls_src(t, defs):
             lines.append(f'        {k} = {v}')
         if not items:
             lines.append('        pass')
-    for f in info['fields']:
+    for f in own_fields:
         ann = q('CatchAll') if f.get('catch_all') else ty_src(ftys[f['name']], defs)
         if f.get('ann_str'):      # optional: the annotation is written as a string (forward reference, resolved by the library on first use)
             ann = repr(ann)
@@ -338,9 +345,9 @@ def cls_src(t, defs):
         else:
             rhs = None
         lines.append(f'    {f["name"]}: {ann}' + (f' = {rhs}' if rhs is not None else ''))
-    if not info['fields']:
+    if not own_fields:
         lines.append('    pass')
-    posts = [f for f in info['fields'] if f.get('post') is not None]
+    posts = [f for f in own_fields if f.get('post') is not None]
     if posts:
         lines.append('    def __post_init__(self):')
         for f in posts:
